@@ -47,6 +47,10 @@ def handle (g : St) (j : Json) : St × Json :=
     match maskedCopy g ((jarr j "mask").map asBool) with
     | .ok c => (g, stJson "ok" c)
     | .error e => (g, stJson (errStr e) g)
+  | "maskCopy2" =>     -- vertex mask and cell mask together
+    match maskedCopy2 g ((jarr j "mask").map asBool) ((jarr j "cmask").map asBool) with
+    | .ok c => (g, stJson "ok" c)
+    | .error e => (g, stJson (errStr e) g)
   | "set" =>
     match setValues "nan" g (jbool j "cell") (jstr j "name") (jstrs j "v") with
     | .ok g' => (g', stJson "ok" g')
